@@ -658,8 +658,10 @@ func genFile(r *run.Rand, rel, ext string, uid *int) File {
 	return f
 }
 
-var dirs = []string{"", "", "a", "a/b", "lib", "pkg/util", "app", "app/core/x"}
-var bases = []string{"main", "Todo", "util", "svc", "index", "mod", "handler", "Repo", "x", "java", "py"}
+// dot-directories and dot-named files are ordinary places for source files: the statement speaks of "any source file with
+// a selected extension" and excludes nothing by name
+var dirs = []string{"", "", "a", "a/b", "lib", "pkg/util", "app", "app/core/x", ".github", ".config/tool", "a/.hidden"}
+var bases = []string{"main", "Todo", "util", "svc", "index", "mod", "handler", "Repo", "x", "java", "py", ".eslintrc"}
 
 // Generate builds one tree of nFiles files. The first files get extensions from Exts (so that a subset filter selects
 // something), the rest a mix of Exts and other extensions.
